@@ -52,7 +52,7 @@ def _get_hash(key: str) -> int:
 
 class C01(Prop):
     id = "C01"
-    lean_modules = ["VivModel.Props.C01", "VivModel.Props.Whole", "VivModel.Props.WholeDt"]
+    lean_modules = ["VivModel.Props.C01", "VivModel.Props.C01Src", "VivModel.Props.Whole", "VivModel.Props.WholeDt"]
     build_targets = ["VivModel.Model.Engine", "VivModel.Model.Events", "VivModel.Model.Proto", "VivModel.Model.Whole", "VivModel.Model.WholeDt"]
     driver = "C01"
     extra_drivers = ["Whole"]        # the cases of kind "whole" are interpreted by the composed model's driver
@@ -492,11 +492,16 @@ class C01(Prop):
                 f.append({"sig": "whole-unexpected-exception", "msg": f"history {self._whole_hist(h)}: {r['error']}"})
         if f:
             return f
-        base = runs[0]
-        for h, r in list(zip(case["histories"], runs))[1:]:
+        # reference = the first step-by-step run (the baseline: fresh process, hash seed 0, nothing else in the process)
+        base = self._whole_anchor(obs) or runs[0]
+        bh = case["histories"][[k for k, r in enumerate(runs) if r is base][0]]
+        for h, r in zip(case["histories"], runs):
+            if r is base:
+                continue
             d = ww.diff_runs(base, r)
             if d:
-                f.append({"sig": "whole-history-differs", "msg": f"history {self._whole_hist(h)} vs the baseline (fresh process, hash seed 0): {d}"})
+                f.append({"sig": "whole-history-differs", "msg": f"history {self._whole_hist(h)} vs the baseline (fresh process, hash seed {bh['hashseed']}, "
+                                                                 f"{len(bh['prior'])} earlier simulations): {d}"})
         return f
 
     @staticmethod
